@@ -264,8 +264,8 @@ pub struct TwinObs {
     pub cancels: u64,
     pub fragments: u64,
     /// identifier-bearing requests in issue order: (tag, session epoch, identifier of the first
-    /// transmission, definitely never enqueued)
-    pub ids: Vec<(u32, u32, Option<u16>, bool)>,
+    /// transmission, definitely never enqueued, refused locally)
+    pub ids: Vec<(u32, u32, Option<u16>, bool, bool)>,
     pub epochs: u32,
     pub nconns: usize,
     /// tags refused for lack of a resource (arena space, in-flight slots, send quota)
@@ -453,7 +453,7 @@ fn observe(w: &World) -> TwinObs {
             .reqs
             .iter()
             .filter(|r| r.qos > 0 || r.kind != ReqKind::Pub)
-            .map(|r| (r.tag, r.epoch, r.id, r.accept == Accept::NotAccepted || w.never_enqueued.contains(&r.tag)))
+            .map(|r| (r.tag, r.epoch, r.id, r.accept == Accept::NotAccepted || w.never_enqueued.contains(&r.tag), r.accept == Accept::NotAccepted))
             .collect(),
         epochs: w.epoch,
         nconns: w.conns.len(),
@@ -598,7 +598,10 @@ fn cancel_twin() {
                 (Some(_), None) => x.3,
                 (None, None) => true,
                 (None, Some(_)) => false,
-            }) && twin.ids.len() == base.ids.len();
+            }) && twin.ids.len() == base.ids.len()
+                // a request refused locally may or may not have consumed an identifier before the
+                // refusal (C07 allows it): comparable only if both runs refused the same requests
+                && twin.ids.iter().all(|x| base.ids.iter().find(|b| b.0 == x.0).is_some_and(|b| b.4 == x.4));
             if comparable {
                 for x in twin.ids.iter() {
                     let (Some(bid), Some(tid)) = (base_id(x.0), x.2) else { continue };
